@@ -23,7 +23,7 @@ PROPERTY = 'C10'
 RULE = ('state in {OPENSENT, OPENCONFIRM, ESTABLISHED} x good* bad good*; bad = UPDATE/OPEN/NOTIFICATION/ROUTE-REFRESH/'
         'KEEPALIVE frame whose body is a mutated reference encoding, a mutated unit-test vector (as body or wrapped as an '
         'attribute / MP_REACH value) or random bytes; sessions in 4- or 2-octet-AS mode, negotiated hold time in '
-        '{180, 90, 3, 0}, [bgp] rib on / off, as the first or as the 2nd/3rd session of the agent. Non-trivial = the bad body is >= 1 octet and at least one good '
+        '{180, 90, 3, 0}, [bgp] rib on / off, as the first or as the 2nd/3rd session of the agent; one message per TCP segment, and the bad message with all that follows in one segment. Non-trivial = the bad body is >= 1 octet and at least one good '
         'message follows; distinct by (state, bytes).')
 ASSUMPTIONS = ['good messages are marked UPDATEs / KEEPALIVEs from refcodec; the control run delivers the same sequence '
                'without the bad message',
@@ -41,7 +41,7 @@ def reports(sim, n0):
     return [(n, p) for _, n, p in sim.handler.calls[n0:] if n in REPORTS]
 
 
-def run_case(case, with_bad=True):
+def run_case(case, with_bad=True, coalesce=False):
     state = case['state']
     bad = rc.frame(case['type'], bytes.fromhex(case['body']))
     as4 = case.get('as4', True)
@@ -128,6 +128,9 @@ def run_case(case, with_bad=True):
     if with_bad:
         seq.append(('b', bad))
     seq += [('g', good(100 + i, as4)) for i in range(case['post'])]
+    if coalesce:
+        # the hostile message and everything after it arrive in one TCP segment
+        seq = seq[:case['pre']] + [('c', b''.join(d for _, d in seq[case['pre']:]))]
     per_msg = []
     mode_known = True
     first_post = case['pre'] + (1 if with_bad else 0)
@@ -166,7 +169,7 @@ def run_case(case, with_bad=True):
             if [n for n, _ in rep] != ['update_received'] or list(rep[0][1].get('nlri') or []) != want:
                 out.append(('good-update-misreported:%s' % ('+'.join(n for n, _ in rep) or 'nothing'),
                             'well-formed UPDATE announcing %r reported as %r' % (want, rep)))
-        if len(rep) > 1:
+        if len(rep) > 1 and kind != 'c':
             out.append(('multiple-reports:%s' % '+'.join(n for n, _ in rep), '%d reports for one message: %r' % (len(rep), [n for n, _ in rep])))
         if kind == 'b' and delivered:
             tr = sim.since(mark)
@@ -204,6 +207,19 @@ def check_case(case):
         if case['type'] == rc.UPDATE and r1 != r2:
             out.append(('collateral:decoding-changed', 'good message after the bad one reported %r, control %r' % (r1, r2)))
             break
+    if case.get('coalesce') and cls == 'survived' and not case.get('finish_handshake') and len(after) == case['post']:
+        # metamorphic: the same octets in one TCP segment (hostile message first, the good ones behind it) are handled alike
+        state_sep = sim.state
+        sep = [x for _, _, r_ in per_msg[bad_idx:] for x in r_]
+        out3, per3, sim3 = run_case(case, True, coalesce=True)
+        out += [f for f in out3 if not f[0].startswith('harness:')]
+        if not out3 and len(per3) == bad_idx + 1:
+            one = list(per3[bad_idx][2])
+            if one != sep or sim3.state != state_sep:
+                out.append(('coalesced:%s' % ('state' if one == sep else 'reports-fewer' if len(one) < len(sep) else 'reports-differ'),
+                            'in one segment: reports %r, state %s; one message per segment: %r, state %s'
+                            % ([n for n, _ in one], sim3.state, [n for n, _ in sep], state_sep)))
+        return out, cls            # (sim3 is the live simulator now; the re-establishment check below needs the first one)
     r = sim.reactor
     r.settle(fire_due=True)
     if sim.state not in ('ESTABLISHED', 'OPENSENT', 'OPENCONFIRM'):
@@ -323,13 +339,13 @@ def bad_message(draw):
 
 
 case_strategy = st.builds(
-    lambda state, pre, post, bad, as4, prior, hold, rib, fin, late: dict(state=state, pre=pre, post=post, type=bad['type'],
-                                                                         body=bad['body'], kind=bad['kind'], as4=as4, prior=prior, hold=hold,
-                                                                         rib=rib, finish_handshake=fin, late_lost=late),
+    lambda state, pre, post, bad, as4, prior, hold, rib, fin, late, co: dict(state=state, pre=pre, post=post, type=bad['type'],
+                                                                             body=bad['body'], kind=bad['kind'], as4=as4, prior=prior, hold=hold,
+                                                                             rib=rib, finish_handshake=fin, late_lost=late, coalesce=co),
     st.sampled_from(['ESTABLISHED', 'ESTABLISHED', 'ESTABLISHED', 'OPENCONFIRM', 'OPENSENT']),
     st.integers(0, 2), st.integers(1, 3), bad_message(), st.booleans(),
     st.one_of(st.just([]), st.just([]), st.lists(st.sampled_from(['close', 'marker', 'cease', 'silence', 'fewcaps-marker']), min_size=1, max_size=2)),
-    st.sampled_from([180, 180, 0, 0, 3, 90]), st.booleans(), st.booleans(), st.booleans())
+    st.sampled_from([180, 180, 0, 0, 3, 90]), st.booleans(), st.booleans(), st.booleans(), st.sampled_from([False, False, True]))
 
 
 def shards(tier):
